@@ -182,6 +182,13 @@ def load_prop(pid):
 def run_cases(mod, ctx, cases, timeout):
     signal.signal(signal.SIGALRM, _alarm)
     before = getattr(mod, "BEFORE_CASE", None)
+    if os.environ.get("VMON_NO_EARLIER_LIFE") != "1":
+        # every worker process has a past: see pollute.long_session
+        try:
+            from . import pollute
+            pollute.long_session(ctx)
+        except Exception:       # noqa: BLE001
+            ctx.count("earlier_life_failed")
     for name, args in cases:
         ctx.case = [name, args]
         fn = getattr(mod, "case_" + name)
